@@ -105,6 +105,9 @@ func describeJoined(p bpath, upto int, text string) joinDesc {
 				}
 				facts := p[start:i].facts()
 				switch {
+				case depth >= 1 && d.List != "" && strings.Contains(w, d.List+"[#1]"):
+					// a text made from the element the loop stands at (whatever literal it starts with)
+					d.Elem = strings.ReplaceAll(w, d.List+"[#1]", "@")
 				case depth >= 1 && strings.HasPrefix(w, `"`) && (containsStr(facts, "#1>0") || containsStr(facts, "#1!=0")):
 					d.Sep = w
 				case depth >= 1 && strings.HasPrefix(w, `"`):
@@ -207,7 +210,9 @@ func writeFuncSemantics(c *Ctx) (probs map[string][]string) {
 			}
 		}
 		if da.List == top || da.Sep != "" {
-			if (da.Sep != `", "` && da.Sep != "") || !(da.Elem == "fmt.Sprintf(`stack[%q]`,@)" || da.Elem == `fmt.Sprintf("stack[%q]",@)`) {
+			// the element text: stack[<the label, quoted as a Go string>] (fmt's %q and strconv.Quote agree on strings)
+			okElem := da.Elem == "fmt.Sprintf(`stack[%q]`,@)" || da.Elem == `fmt.Sprintf("stack[%q]",@)` || da.Elem == `"stack["+strconv.Quote(@)+"]"`
+			if (da.Sep != `", "` && da.Sep != "") || !okElem {
 				add("lists", "the argument list is built with separator "+da.Sep+" and element "+da.Elem)
 			}
 			if da.Sep == `", "` {
